@@ -236,10 +236,17 @@ def sim_jobs(tier, only_bounds=False):
     else:
         cfgs = [(S2, (0, 1), 4, "ideal", 1, 5), (S2, (0, 0), 4, "stepwise", 2, 60), (S3, (0, 1, 1), 4, "ideal", 2, 1),
                 (S3, (0, 0, 2), 4, "stepwise", 1, 5), (S3, (0, 1, 2), 3, "ideal", 3, 60)]
+        if only_bounds:
+            # the entrywise bounds (C03's simulation-level corollary) on the lighter scenarios; the three-session stepwise
+            # scenario is judged with the full ledger by C02's own thorough tier
+            cfgs = [c for c in cfgs if not (len(c[1]) == 3 and c[3] == "stepwise")]
     js = []
     for st, so, H, bat, L, per in cfgs:
         # three-session scenarios are split by the first session's (arrival, departure) so that the shards run in parallel
         shards = [None] if len(so) < 3 else [(a, d) for a in range(H) for d in range(a + 1, H + 1)]
+        if len(so) >= 3 and so.count(so[0]) > 1:
+            # another session shares the first session's station: the shard in which the first session occupies the whole horizon is empty
+            shards = [sh for sh in shards if sh != (0, H)]
         for sh in shards:
             name = "sim%s[n=%d,sess=%s,H=%d,%s,L=%d,T=%d%s]" % ("_bounds" if only_bounds else "", len(st), "".join(map(str, so)), H, bat, L, per, "" if sh is None else ",first=%d-%d" % sh)
             js.append(Job(name, h_sim, dict(stations=st, station_of=so, H=H, battery=bat, L=L, period=per, bounds_only=only_bounds, shard=sh),
